@@ -7,7 +7,9 @@ XPath 1.0 expressions outside the documented subset.
 Correspondence (model vs code, bug-compatible, findings included):
   parse    real PathParser AST            vs gdrv `C05 parse`
   select   real Stream.select             vs gdrv `C05 select`     (strategy chosen as Path.__init__ does)
-  selectg  real select, GenericStrategy   vs gdrv `C05 selectf generic`
+  selectg  real select, GenericStrategy   vs gdrv `C05 runf Generic`
+  selects  real select, SimplePathStrategy forced on every path it supports   vs gdrv `C05 runf Simple`
+  select1  real select, SingleStepStrategy forced on every path it supports   vs gdrv `C05 runf Single`
   pred     real predicate object call     vs gdrv `C05 pred`       (coercions, functions, operators)
   xp       Python reference               vs gdrv `C05 xp`         (the Lean reference semantics)
 
@@ -316,6 +318,10 @@ def aimed_union_case(rng):
 def gen_case(rng, profile=None):
     if profile is None and rng.random() < 0.08:
         return aimed_union_case(rng)
+    if profile is None and rng.random() < 0.08:
+        # SimplePathStrategy with several fragments (hand-over between fragments, KMP fall-back)
+        doc, text = G.rand_fragcase(rng)
+        return {'doc': doc, 'path': text}
     if profile is None and rng.random() < 0.25:
         c = aimed_pred_case(rng)
         if c:
@@ -399,6 +405,22 @@ def check_cases(cases, res, stream_prefix=''):
         gg = real_select(events, text, ns, vs, force='generic')
         real_g = [Atom('ok')] + gg[1] if gg[0] == 'ok' else [Atom('err'), Atom(gg[1])]
         ask('selectg', i, proto.line(Atom('C05'), Atom('runf'), Atom('Generic'), text, wns, wvs, wev), real_g)
+        for tag, force, name in (('selects', 'simple', 'Simple'), ('select1', 'single', 'Single')):
+            fs = real_select(events, text, ns, vs, force=force)
+            if fs[0] == 'unsupported':
+                continue
+            real_f = [Atom('ok')] + fs[1] if fs[0] == 'ok' else [Atom('err'), Atom(fs[1])]
+            ask(tag, i, proto.line(Atom('C05'), Atom('runf'), Atom(name), text, wns, wvs, wev), real_f)
+        try:
+            for p_ in P.PathParser(text).parse():
+                if P.SimplePathStrategy.supports(p_):
+                    fr_ = P.SimplePathStrategy(p_).fragments
+                    nfr = len([f_ for f_ in (fr_ or []) if f_[0]])
+                    res.count('simple:fragments=%d' % min(nfr, 4))
+                    if nfr >= 2 and judged:
+                        res.count('simple:multi-fragment-judged' + ('-nonempty' if exp else ''))
+        except Exception:  # noqa
+            pass
         if 'leading-position' not in zones:
             # the Lean reference works on the tree: namespace / CDATA marker events are not nodes
             nodes_only = [x for x in exp if not (x[0] == 'ev' and (x[1] in ('SC', 'EC') or x[1][0] in ('NS', 'ENS')))]
